@@ -120,9 +120,14 @@ def std_match(a, b):
 
 # ---- typed values: (kind, payload); kind in sl / slv / uns / str (bit-string literal) / bool / int
 class Interp:
-    def __init__(self, elab, max_delta=2000):
+    def __init__(self, elab, max_delta=2000, case_merge=False):
         self.e = elab
         self.max_delta = max_delta
+        # case_merge=True is NOT VHDL semantics: a CASE whose selector contains a metavalue merges all
+        # explicit branches bit-wise (what Node_Multiplexer::simulateEvaluate does) instead of taking
+        # WHEN OTHERS.  Used only to CLASSIFY a mismatch as the known X-pessimism of the CASE export.
+        self.case_merge = case_merge
+        self.case_merged = 0
         self.val = []
         for n in elab.nets:
             self.val.append(n.init if n.init is not None else "U" * n.width)
@@ -219,6 +224,9 @@ class Interp:
                 if sel[0] not in ("uns", "slv", "sl"):
                     raise Unsupported("CASE selector of type " + sel[0])
                 hit = False
+                if self.case_merge and has_meta(sel[1]) and len(s[2]) > 1:
+                    self.merge_case(s, p)
+                    continue
                 for ch, body in s[2]:
                     if ch == "others":
                         self.exec_stmts(body, p)
@@ -239,6 +247,30 @@ class Interp:
                 pass
             else:
                 raise Unsupported("statement " + k)
+
+    def merge_case(self, s, p):
+        self.case_merged += 1
+        snap_v, snap_p = dict(self.varval), dict(self.pending)
+        res = []
+        for ch, body in s[2]:
+            if ch == "others":
+                continue
+            self.varval, self.pending = dict(snap_v), dict(snap_p)
+            self.exec_stmts(body, p)
+            res.append((self.varval, self.pending))
+
+        def merge(vals):
+            return "".join(c[0] if (c[0] in "01" and all(x == c[0] for x in c)) else "X" for c in zip(*vals)) if vals[0] else ""
+        nv, np_ = dict(snap_v), dict(snap_p)
+        for k in snap_v:
+            vs = [r[0][k] for r in res]
+            if any(v != snap_v[k] for v in vs):
+                nv[k] = merge(vs)
+        for k in set().union(*[set(r[1]) for r in res]):
+            vs = [r[1].get(k, snap_p.get(k, "X" * len(self.val[k]))) for r in res]
+            if any(v != snap_p.get(k) for v in vs):
+                np_[k] = merge(vs)
+        self.varval, self.pending = nv, np_
 
     def cond(self, e, p):
         v = self.ev(e, p, ("bool",))
@@ -496,9 +528,9 @@ def find_clock_reset(elab):
     return clk, rst
 
 
-def replay_trace(elab, tr, clock_names=("sysclk",), reset_names=("reset",), reset_active="1"):
+def replay_trace(elab, tr, clock_names=("sysclk",), reset_names=("reset",), reset_active="1", case_merge=False, stats=None):
     """tr: circ.parse_traces entry. Returns None or dict(cycle=, pin=, expected=, observed=, ...)"""
-    it = Interp(elab)
+    it = Interp(elab, case_merge=case_merge)
     ports = {pn: (d, n) for pn, d, n in elab.top_ports}
     clk = [ports[c][1] for c in clock_names if c in ports]
     rst = [ports[r][1] for r in reset_names if r in ports]
@@ -523,10 +555,10 @@ def replay_trace(elab, tr, clock_names=("sysclk",), reset_names=("reset",), rese
                 it.apply({c.id: "1" for c in clk})
             elif ev == "e":
                 it.apply({c.id: "0" for c in clk})
-            elif ev == "R1":
-                it.apply({r.id: reset_active for r in rst})
+            elif ev == "R1":      # SimulatorCallbacks::onReset reports the LEVEL of the reset pin
+                it.apply({r.id: "1" for r in rst})
             elif ev == "R0":
-                it.apply({r.id: _not(reset_active) for r in rst})
+                it.apply({r.id: "0" for r in rst})
         upd = {}
         for (nm, w), v in zip(ins, iv):
             if w == 0:
@@ -541,10 +573,19 @@ def replay_trace(elab, tr, clock_names=("sysclk",), reset_names=("reset",), rese
             g01 = to_x01(got)
             if len(exp) != len(got):
                 return dict(kind="width differs", cycle=cyc, pin=nm, expected=exp, observed=got)
+            if stats is not None:
+                stats["bits_compared"] = stats.get("bits_compared", 0) + sum(1 for x in exp if x in "01")
+                stats["vhdl_more_defined_bits"] = stats.get("vhdl_more_defined_bits", 0) + sum(1 for x, y in zip(exp, g01) if x not in "01" and y in "01")
             for x, y in zip(exp, g01):
                 if x in "01" and x != y:
+                    contradiction = any(a in "01" and b in "01" and a != b for a, b in zip(exp, g01))
+                    defined_so_far = all(all(ch in "01" for ch in v) for c2 in tr["cycles"][:cyc + 1] for v in c2[0] if v != "e")
                     return dict(kind="defined output value of the reference simulator not reproduced by the VHDL", cycle=cyc, pin=nm,
-                                expected=exp, observed=got, inputs=dict(zip([i[0] for i in ins], iv)))
+                                expected=exp, observed=got, inputs=dict(zip([i[0] for i in ins], iv)),
+                                contradiction=contradiction, stimulus_fully_defined=defined_so_far)
+    if stats is not None:
+        stats["deltas"] = stats.get("deltas", 0) + it.deltas
+        stats["cycles"] = stats.get("cycles", 0) + len(tr["cycles"])
     return None
 
 
